@@ -231,6 +231,39 @@ pub fn test_header_paths(c: &PathCase) -> Result<bool, (String, String)> {
             (Some(d), x) => ensure!(d == x, "C15:header:monotonic", "answer {:?} changed to {:?} with more input", d, x),
         }
     }
+    // the typestate layer on top (what the driver calls for every peer-opened uni stream): the
+    // slice and the async upgrade agree with each other and with the header decoders, and the
+    // documented codes are used (unknown type -> StreamCreation, invalid session id -> Id)
+    {
+        use wtransport_proto::error::ErrorCode;
+        use wtransport_proto::stream::uniremote::{MaybeUpgradeH3, StreamUniRemoteQuic};
+        let mut sl: &[u8] = b;
+        let up_sync = StreamUniRemoteQuic::accept_uni().upgrade(&mut sl);
+        let sync_obs: Obs<String> = match &up_sync {
+            Ok(MaybeUpgradeH3::H3(h)) => Obs::Value(format!("{:?}", h.kind()), b.len() - sl.len()),
+            Ok(MaybeUpgradeH3::Quic(_)) => Obs::NeedMore,
+            Err(e) => Obs::Err(format!("{e:?}")),
+        };
+        let mut src = Scripted::new(b, &c.chunks, &c.pendings);
+        let Some(up_async) = run_to_end(StreamUniRemoteQuic::accept_uni().upgrade_async(&mut src), 100_000) else {
+            return Err(("C15:hang:uni-upgrade-async".into(), "upgrade_async never completes".into()));
+        };
+        let async_obs: Obs<String> = match &up_async {
+            Ok(h) => Obs::Value(format!("{:?}", h.kind()), src.pos),
+            Err(wtransport_proto::stream::IoReadError::H3(e)) => Obs::Err(format!("{e:?}")),
+            Err(wtransport_proto::stream::IoReadError::IO(_)) => Obs::NeedMore,
+        };
+        ensure!(sync_obs == async_obs, "C15:uni-upgrade:sync-vs-async", "upgrade = {:?}, upgrade_async = {:?} on {}", sync_obs, async_obs, vcore::hex_short(b));
+        match (&s, &sync_obs) {
+            (Obs::Value(_, n), Obs::Value(_, m)) => ensure!(n == m, "C15:uni-upgrade:consumed", "StreamHeader::read consumed {n} bytes, upgrade {m}"),
+            (Obs::NeedMore, Obs::NeedMore) => {}
+            (Obs::Err(he), Obs::Err(code)) => {
+                let want = if he.contains("unknown-stream") { format!("{:?}", ErrorCode::StreamCreation) } else { format!("{:?}", ErrorCode::Id) };
+                ensure!(*code == want, "C15:uni-upgrade:code", "header error {he} is reported by upgrade as {code}, documented {want}");
+            }
+            (h, u) => ensure!(false, "C15:uni-upgrade:vs-header", "StreamHeader::read = {:?} but upgrade = {:?}", h, u),
+        }
+    }
     Ok(crate::c11::nontrivial(b) && reads >= 2 && pends >= 1)
 }
 
